@@ -75,7 +75,7 @@ def zn_eval(ctx, items, op="zn"):
 def run(ctx):
     rng, tier = ctx["rng"], ctx["tier"]
     n = int((120 if tier == "quick" else 2500) * ctx.get("mult", 1))
-    hashseeds = [0, 1, 2] if tier == "quick" else list(range(8))
+    hashseeds = [0, 1, 2, 3] if tier == "quick" else list(range(8))
     if ctx.get("replay"):
         cases = [f["case"] for f in ctx["replay"]["failing"] if "case" in f]
     else:
